@@ -23,8 +23,8 @@ func runConcretiser(script, repo, prop string, o *Obligation, seed int) interfac
 	mf.Close()
 	ctx, cancel := context.WithTimeout(context.Background(), 240*time.Second)
 	defer cancel()
-	cmd := exec.CommandContext(ctx, script)
-	cmd.Env = append(os.Environ(), "VERIF_REPO="+repo, "VERIF_PROP="+prop, "VERIF_OBLIGATION="+o.Fn+"/"+o.Name, "VERIF_MODEL="+mf.Name(), "VERIF_SEED="+strconv.Itoa(seed))
+	cmd := exec.CommandContext(ctx, script, prop)
+	cmd.Env = append(os.Environ(), "VERIF_REPO="+repo, "VERIF_PROP="+prop, "VERIF_HINT="+o.Fn+"/"+o.Name, "VERIF_BOUND=quick", "VERIF_MODEL="+mf.Name(), "VERIF_SEED="+strconv.Itoa(seed))
 	var out bytes.Buffer
 	cmd.Stdout = &out
 	cmd.Stderr = os.Stderr
